@@ -138,4 +138,25 @@ def run_case(case):
     return ok(overlap and differ and len(jcalls) >= 3, classes, {'joined': len(jcalls), 'of': case['n'], 'workers_used': used})
 
 
-PARTS = [Part('balance', run_case, strategy=case_strategy, examples={'quick': 300, 'thorough': 6000})]
+def run_low(case):
+    """Receiver-API level: a balanced-sources consumer fed by 2-3 bare workers that forward upstream ids (overlapping shares = overtaken
+    frames), workers closing / dying and coming back, recv() calls lasting up to seconds."""
+    from props import lowcommon
+    out, sets = lowcommon.run(case)
+    classes = lowcommon.classes_of(case, out)
+    if out['raised']:
+        return bad(f'{out["raised"][0][0]} raised {out["raised"][0][1]}', f'lowlevel-raised:{out["raised"][0][1].split(":")[0]}', classes)
+    v = lowcommon.balanced_single_source(case, out, sets) or lowcommon.order_and_identity(case, out, sets)
+    if v:
+        return bad(v[0], 'lowlevel:' + v[1], classes)
+    overlap = len(set.intersection(*[set(range(case['n'])) - set(p['skip']) for p in case['pubs']])) > 0
+    return ok(len(sets) >= 5 and (overlap or out['restarts'] > 0), classes, {'sets': len(sets), 'restarts': out['restarts']})
+
+
+def low_strategy(tier):
+    from simnet import lowlevel
+    return lowlevel.low_case(tier, balance=True, max_pubs=3)
+
+
+PARTS = [Part('balance', run_case, strategy=case_strategy, examples={'quick': 300, 'thorough': 6000}, share=0.75),
+         Part('receiver_api', run_low, strategy=low_strategy, examples={'quick': 120, 'thorough': 3000}, share=0.25)]
